@@ -21,6 +21,7 @@ import (
 // CaseFile is the replayable form of one case: no random source is needed to run it again.
 type CaseFile struct {
 	Property  string          `json:"property"`
+	Test      string          `json:"test,omitempty"` // go test that replays this file (default: the world test)
 	Config    sim.Config      `json:"config"`
 	Actions   []Action        `json:"actions"`
 	Violation string          `json:"violation,omitempty"`
@@ -162,6 +163,7 @@ type failer interface {
 // WorldProp describes a property checked on the world machine.
 type WorldProp struct {
 	ID         string
+	Name       string // registry key (defaults to ID); several variants may serve one property id
 	Rule       string
 	Gen        GenOpts
 	MinSteps   int
@@ -180,7 +182,12 @@ type WorldProp struct {
 
 var worldProps = map[string]*WorldProp{}
 
-func registerWorldProp(p *WorldProp) { worldProps[p.ID] = p }
+func registerWorldProp(p *WorldProp) {
+	if p.Name == "" {
+		p.Name = p.ID
+	}
+	worldProps[p.Name] = p
+}
 
 // runCase executes one case. next returns the next action or ok=false.
 func runCase(t failer, p *WorldProp, cfg sim.Config, next func(m *Machine, i int) (Action, bool)) {
@@ -189,7 +196,7 @@ func runCase(t failer, p *WorldProp, cfg sim.Config, next func(m *Machine, i int
 
 func runCaseM(t failer, p *WorldProp, cfg sim.Config, next func(m *Machine, i int) (Action, bool)) (mm *Machine) {
 	invs := p.Invariants()
-	cf := &CaseFile{Property: p.ID, Config: cfg}
+	cf := &CaseFile{Property: p.ID, Config: cfg, Test: "Test" + p.Name}
 	lastCase = cf
 	st := getStats(p.ID)
 	st.Rule = p.Rule
@@ -304,11 +311,12 @@ func historyString(m *Machine) string {
 }
 
 // runWorldProp is the body of every world-machine property test.
-func runWorldProp(t *testing.T, id string) {
-	p := worldProps[id]
+func runWorldProp(t *testing.T, name string) {
+	p := worldProps[name]
 	if p == nil {
-		t.Fatalf("unknown world property %s", id)
+		t.Fatalf("unknown world property %s", name)
 	}
+	id := p.ID
 	defer finish(t, id)
 	if f := os.Getenv("VERIF_REPLAY"); f != "" {
 		replayFile(t, p, f)
@@ -321,6 +329,12 @@ func runWorldProp(t *testing.T, id string) {
 		g := p.Gen
 		if p.Adapt != nil {
 			p.Adapt(&g, activeKnown[p.ID], getStats(p.ID))
+		}
+		if g.Focus {
+			g.FocusAsset = uniform(rt, len(cfg.Assets)+1, "focus-asset") - 1
+		}
+		if g.ForceFocus > 0 {
+			g.Focus, g.FocusAsset = true, g.ForceFocus-1
 		}
 		if len(g.Tempos) > 0 {
 			g.MaxDt = g.Tempos[uniform(rt, len(g.Tempos), "tempo")]
